@@ -290,7 +290,7 @@ class GlobalModelRepository:
         """
         if model._tx_filename is None:
             for fn in self.all_models.filename_to_model:
-                if self.all_models.filename_to_model[fn] == model:
+                if self.all_models.filename_to_model[fn] is model:
                     # print("UPDATED/CACHED {}".format(fn))
                     return fn
             i = 0
@@ -365,7 +365,7 @@ def get_included_models(model):
     """
     if hasattr(model, "_tx_model_repository"):
         models = list(model._tx_model_repository.all_models)
-        if model not in models:
+        if not any(m is model for m in models):
             models.append(model)
     else:
         models = [model]
